@@ -127,13 +127,16 @@ fn small_event(logn: usize, q: u64, rng: &mut impl Rng) -> Option<Value> {
     Some(json!({"op": "ntt_small", "n": n, "q": q, "root": t.root(), "roots": roots, "fwd": fwd, "inv": inv, "lazyf": lazyf, "lazyi": lazyi, "conv": conv, "shift": shift}))
 }
 
-fn big_event(logn: usize, q: u64, js: &[usize]) -> Option<Value> {
+fn big_event(logn: usize, q: u64, js: &[usize], few: bool) -> Option<Value> {
     let n = 1usize << logn;
     let t = tables(logn, q)?;
     let roots: Vec<u64> = (0..3).filter_map(|_| tables(logn, q).map(|x| x.root())).collect();
     let mut units = vec![];
     for &j in js {
-        for (kind, c) in [("fwd", 1u64), ("fwd", q - 1), ("lazy", 2 * q), ("lazy", 4 * q - 1), ("lazy", 2 * q + 1), ("inv", 1), ("inv", q - 1), ("lazyinv", 2 * q - 1)] {
+        let all = [("fwd", 1u64), ("fwd", q - 1), ("lazy", 2 * q), ("lazy", 4 * q - 1), ("lazy", 2 * q + 1), ("inv", 1), ("inv", q - 1), ("lazyinv", 2 * q - 1)];
+        let some = [("fwd", q - 1), ("lazy", 2 * q), ("inv", 1u64)];
+        let kinds: &[(&str, u64)] = if few { &some } else { &all };
+        for &(kind, c) in kinds {
             let mut v = vec![0u64; n];
             let r = match kind {
                 "fwd" => {
@@ -178,8 +181,11 @@ pub fn main(args: &[String]) {
     }
     // moduli of 20..61 bits as the library generates them, plus the largest admissible
     let bitsets: Vec<usize> = if quick { vec![20, 40, 61] } else { vec![17, 20, 25, 30, 35, 40, 45, 50, 55, 60, 61] };
-    for logn in [1usize, 3, 4, 6, 10, 12] {
-        if quick && (logn == 6 || logn == 12) {
+    for logn in [1usize, 3, 4, 6, 8, 10, 12] {
+        if quick && (logn == 6 || logn == 10 || logn == 12) {
+            continue;
+        }
+        if !quick && logn == 8 {
             continue;
         }
         let n = 1usize << logn;
@@ -194,8 +200,8 @@ pub fn main(args: &[String]) {
                 guarded(|| heathcliff::CoeffModulus::create(n, vec![b])[0].value())
             };
             if let Ok(q) = q {
-                let js: Vec<usize> = if n <= 16 { (0..n).collect() } else { vec![0, 1, 2, n / 2, n - 1, rng.gen_range(0..n)] };
-                if let Some(e) = big_event(logn, q, &js) {
+                let js: Vec<usize> = if n <= 16 { (0..n).collect() } else if quick { vec![1, n - 1] } else { vec![0, 1, 2, n / 2, n - 1, rng.gen_range(0..n)] };
+                if let Some(e) = big_event(logn, q, &js, quick && n > 16) {
                     println!("{}", e);
                 }
             }
